@@ -57,8 +57,11 @@ def random_call(rng, addr, names=None, hot=0.5, long_bias=0.2):
             if an.startswith('B:') or an in a:
                 continue
             if an in BUF_LEN_ARG.values():
+                # the largest sizes the functions accept: 121 data bytes, i.e. a 128-byte message (length byte 127) at address depth 3
                 mx = {'bidib_send_accessory_para_set_macromap': 16, 'bidib_send_lc_configx_set': 8, 'bidib_send_bm_mirror_multiple': 128,
-                      'bidib_send_vendor_set': 58, 'bidib_send_vendor_get': 118, 'bidib_send_string_set': 116, 'bidib_send_fw_update_op_data': 118}.get(name, 32)
+                      'bidib_send_vendor_set': 59, 'bidib_send_vendor_get': 120, 'bidib_send_string_set': 118, 'bidib_send_fw_update_op_data': 120}.get(name, 32)
+                if name == 'bidib_send_vendor_set' and an == 'vlen' and 'nlen' in a:
+                    mx = 119 - a['nlen']
                 if name == 'bidib_send_bm_mirror_multiple':
                     a[an] = 8 * rng.randrange(1, 17)
                 elif rng.random() < long_bias:
